@@ -671,6 +671,17 @@ func (a *rawAction) Exec(ctx context.Context, bs match.Bindings, props core.Step
 func (a *rawAction) Binds() []match.Bindings { return nil }
 func (a *rawAction) Emits() []interface{}    { return nil }
 
+// goTypedStates: bindings as Go code hands them over - permanent and ordinary values that
+// are Go containers other than the two JSON ones (none of them comparable with ==), a
+// snapshot of bindings kept under a permanent name the way core keeps lastBindings
+var goTypedStates = []hostileState{
+	{"permanent-go-typed", ref.AState{Node: "start", Bs: map[string]interface{}{
+		"allowed!": []string{"a", "b"}, "snapshot!": match.Bindings{"a": 1.0}, "labels!": map[string]string{"k": "v"},
+		"rows!": []map[string]interface{}{{"n": 1.0}}, "pair!": [2]interface{}{"a", []interface{}{1.0}}, "when!": struct{ Tags []string }{[]string{"t"}},
+		"a": 1.0, "plain": []string{"x"}}}},
+	{"permanent-go-typed-numbers", ref.AState{Node: "start", Bs: map[string]interface{}{"n!": 3, "f!": float32(1.5), "u!": uint8(7), "b!": []byte("raw"), "a": int64(1)}}},
+}
+
 func oddNative(rec *fw.Rec, worker int) {
 	type odd struct {
 		Name string
@@ -708,7 +719,7 @@ func oddNative(rec *fw.Rec, worker int) {
 	for _, o := range odds {
 		for _, pos := range []string{"action", "guard", "guard-after-action"} {
 			for settings := 0; settings < 5; settings++ {
-				for _, hs := range hostileStates {
+				for _, hs := range append(append([]hostileState{}, hostileStates...), goTypedStates...) {
 					for _, api := range []string{"step", "walk-nil-control", "walk", "raw:step", "raw:walk-nil-control", "raw:walk"} {
 						desc := map[string]interface{}{"native": o.Name, "position": pos, "settings": settings, "state": hs.Name, "api": api}
 						isRaw := strings.HasPrefix(api, "raw:")
@@ -794,6 +805,9 @@ func oddNative(rec *fw.Rec, worker int) {
 							}
 						}
 						rec.Bucket("native_odd_checked")
+						if strings.HasPrefix(hs.Name, "permanent-go-typed") {
+							rec.Bucket("native_odd_checked_from_go_typed_permanent_bindings")
+						}
 						if isRaw {
 							rec.Bucket("native_odd_checked_with_an_action_type_of_the_hosts")
 						}
@@ -806,8 +820,8 @@ func oddNative(rec *fw.Rec, worker int) {
 }
 
 func Run(cfg fw.Config, rec *fw.Rec) {
-	rec.Rule = "cross product {behaviour (60: throw Error/string/object, infinite loop, recursion, loop inside try, return null/undefined/number/string/array/function/NaN/bool/Date/cyclic/function-member, _.out of unserialisable/NaN/cyclic, bindings replaced, deleting permanents, 21 wrong uses of the extended interpreter's _.match / _.cronNext / _.randstr under the standard interpreter map ...)} x {action, guard, guard at a node whose action succeeded} x {5 error settings} x {6 states: empty, nil bindings, permanent, unknown node, unknown node + nil bindings, at error node} x {6 controls: nil, limit -1/0/1/100, breakpoint} x {4 pendings incl. a nil element} x {Step, Walk} x renderings; damaged JSON/YAML documents (45 targeted + random) loaded by encoding/json, jsccast/yaml, yaml.v2 and sio's file-URL loader, compiled, then walked; variable branch targets bound to a number / boolean / null / object / array / empty string / unknown name through a message, the bindings, an action or a guard; messages and bindings full of strings that look like pattern variables (\"?y\" matched by a pattern that uses ?y twice, mutually referring bindings); odd native results ((nil,nil), nil bindings, (nil,err), (exe,err), same map, Execution literals without Events; each through a FuncAction and through an Action type of the host's own); 53 hostile requests to a sio crew (duplicate / malformed timer requests, malformed crew operations, deleting the service machines, odd routing targets, machines without spec or state), alone and in sequence, each followed by a probe that the crew still delivers; 6 scripts that build a value with shared substructure (64 levels, 2^64 values when written out) and 10 scripts that build a value nested 1,000,000 levels deep and emit it, return it (action and guard), hand it to _.match (extended interpreter), or do so inside a sio crew machine, each in a process of its own: the process must survive, the action must fail and the failure be surfaced, the crew must still answer; one child process per batch, every case logged before it runs; oracle: no panic / fatal / hang, and every failure surfaced as the reference step says; non-trivial = case run to a verdict; distinct by case description"
-	rec.Required = []string{"failures_surfaced_step", "walks_checked", "state_nil-bindings", "state_unknown-node-nil-bindings", "state_permanent", "failures_surfaced_nil_bindings", "control_nil", "control_limit-1", "doc_compiled", "doc_compile_error", "doc_load_error", "native_odd_checked", "native_odd_checked_with_an_action_type_of_the_hosts", "failures_surfaced_native", "host_requests_survived", "behaviour_loop", "behaviour_recursion", "behaviour_out-cyclic", "position_guard-after-action", "extended_interpreter_helper_misused", "odd_branch_target_values_survived", "messages_with_variable_lookalikes_survived", "concurrent_props_writers_survived", "deep_value_cases_survived", "deep_value_failures_surfaced", "deep_value_crew_still_alive", "deep_value_boundary_accepted_and_storable", "deep_value_boundary_refused"}
+	rec.Rule = "cross product {behaviour (60: throw Error/string/object, infinite loop, recursion, loop inside try, return null/undefined/number/string/array/function/NaN/bool/Date/cyclic/function-member, _.out of unserialisable/NaN/cyclic, bindings replaced, deleting permanents, 21 wrong uses of the extended interpreter's _.match / _.cronNext / _.randstr under the standard interpreter map ...)} x {action, guard, guard at a node whose action succeeded} x {5 error settings} x {6 states: empty, nil bindings, permanent, unknown node, unknown node + nil bindings, at error node} x {6 controls: nil, limit -1/0/1/100, breakpoint} x {4 pendings incl. a nil element} x {Step, Walk} x renderings; damaged JSON/YAML documents (45 targeted + random) loaded by encoding/json, jsccast/yaml, yaml.v2 and sio's file-URL loader, compiled, then walked; variable branch targets bound to a number / boolean / null / object / array / empty string / unknown name through a message, the bindings, an action or a guard; messages and bindings full of strings that look like pattern variables (\"?y\" matched by a pattern that uses ?y twice, mutually referring bindings); odd native results ((nil,nil), nil bindings, (nil,err), (exe,err), same map, Execution literals without Events; each through a FuncAction and through an Action type of the host's own, also from states whose permanent bindings are Go containers that == cannot compare: []string, match.Bindings, map[string]string, []map[string]interface{}, arrays, structs with slices); 53 hostile requests to a sio crew (duplicate / malformed timer requests, malformed crew operations, deleting the service machines, odd routing targets, machines without spec or state), alone and in sequence, each followed by a probe that the crew still delivers; 6 scripts that build a value with shared substructure (64 levels, 2^64 values when written out) and 10 scripts that build a value nested 1,000,000 levels deep and emit it, return it (action and guard), hand it to _.match (extended interpreter), or do so inside a sio crew machine, each in a process of its own: the process must survive, the action must fail and the failure be surfaced, the crew must still answer; one child process per batch, every case logged before it runs; oracle: no panic / fatal / hang, and every failure surfaced as the reference step says; non-trivial = case run to a verdict; distinct by case description"
+	rec.Required = []string{"failures_surfaced_step", "walks_checked", "state_nil-bindings", "state_unknown-node-nil-bindings", "state_permanent", "failures_surfaced_nil_bindings", "control_nil", "control_limit-1", "doc_compiled", "doc_compile_error", "doc_load_error", "native_odd_checked", "native_odd_checked_with_an_action_type_of_the_hosts", "native_odd_checked_from_go_typed_permanent_bindings", "failures_surfaced_native", "host_requests_survived", "behaviour_loop", "behaviour_recursion", "behaviour_out-cyclic", "position_guard-after-action", "extended_interpreter_helper_misused", "odd_branch_target_values_survived", "messages_with_variable_lookalikes_survived", "concurrent_props_writers_survived", "deep_value_cases_survived", "deep_value_failures_surfaced", "deep_value_crew_still_alive", "deep_value_boundary_accepted_and_storable", "deep_value_boundary_refused"}
 	rec.Assume = []string{"native actions do not panic themselves (a Go panic in host code is the host's)", "with absent bindings an ECMAScript program's behaviour is its own; only totality is judged there", "hard watchdog 30-60 s per call; contexts carry deadlines of 40 ms (non-terminating scripts) or 2 s"}
 	bs := behaviours()
 	var cases []crossCase
